@@ -68,7 +68,8 @@ def cases(draw, tier):
             # digests that begin or end in zero bytes (1 in 256 by chance)
             "grind_custom": draw(st.sampled_from([None, None, None, "ends-00", "starts-00",
                                                   "ends-0000"])),
-            "grind_auth": draw(st.sampled_from([None, None, None, "ends-00", "starts-00"]))}
+            "grind_auth": draw(st.sampled_from([None, None, None, "ends-00", "starts-00"])),
+            "b64_wrap": draw(st.sampled_from([0, 0, 64, 76]))}
     corr = []
     for _ in range(draw(st.sampled_from([0, 1, 1, 1, 2]))):
         corr.append({"kind": draw(st.sampled_from(CORR)), "el": draw(st.integers(0, 9)),
@@ -314,6 +315,15 @@ def apply(c):
                 labels.append("p384-inter-applied")
             else:
                 labels[-1] = "corr:p384-inter-na"
+    wrap = c["spec"].get("b64_wrap")
+    if wrap:
+        # certificates kept as the lines of the PEM they came in (what the gathering command
+        # writes when the device's chain is wrapped at 64 or 76 characters)
+        for e in doc["elements"]:
+            if e.get("type") == "x509_pem" and isinstance(e.get("message"), str):
+                m = e["message"]
+                e["message"] = "\n".join(m[i:i + wrap] for i in range(0, len(m), wrap))
+        labels.append("b64-wrapped")
     return doc, root_map, broken, labels, v
 
 
